@@ -10,8 +10,11 @@ additive and homogeneous in y and unique when A is positive definite; RSS, scale
 with c⁻², the Wald statistic is scale free).
 Correspondence / oracle (the same runs serve both): metamorphic pairs of fits of the REAL code (tol 1e-10) for every model
 class and random term mixes — permute the rows; rescale every spline-only feature x -> a x + b with a over 1e-6…1e6 (query
-points and user-given edge knots mapped likewise); integer weights vs replicated rows; LinearGAM / GAM(normal, identity):
-y1 + y2 and c·y with c over ±1e-6…1e6.  Compared: predictions on the link scale (query points incl. extrapolation + training
+points and user-given edge knots mapped likewise), in every run also training matrices handed over with an INTEGER dtype
+and user edge knots given as whole numbers, compared with the same model on the mapped floating-point data at query points
+between the whole numbers; integer weights (incl. all ones vs weights=None) vs replicated rows, for PoissonGAM in every run
+also together with a non-constant exposure (a copy of a row carries the exposure of the row; exposure is permuted with
+the rows in the permutation stream); LinearGAM / GAM(normal, identity): y1 + y2 and c·y with c over ±1e-6…1e6.  Compared: predictions on the link scale (query points incl. extrapolation + training
 rows), edof; for c·y also p_values (unchanged) and scale / GCV / cov (x c²); for rescaling also the model matrix and the
 compiled edge knots.  Tolerance as in C01: thr = max(1e-6, 10 eps cond(N)), problems with thr > 1e-3 are not judged.
 Model side (Lean driver, exact rationals, on matrices exported from the real fits): `colsaff` — the model's rescaled problem
@@ -41,8 +44,10 @@ def gen_jobs(rng, tier):
     """list of job dicts (picklable): a fitgen case + the kind of transformation + its own sub-seed"""
     if tier == 'quick':
         n_general, n_linear = 3, 12         # x 13 pairs x 3 kinds ; x 2 kinds
+        n_expo, n_int = 8, 14
     else:
         n_general, n_linear = 60, 240
+        n_expo, n_int = 48, 84
     jobs = []
     base = fitgen.gen_cases(rng, n_general * len(fitgen.PAIRS) * 3, tier)
     for i, c in enumerate(base):
@@ -53,14 +58,38 @@ def gen_jobs(rng, tier):
             c['n_mode'] = '2'
         if kind == 'repl':
             # styles of integer weight vectors: mixed, mixed with zeros, all equal (2, 3, 5), mostly ones
-            c['weights_mode'] = ('int', 'int0', 'const', 'sparse', 'int', 'const')[(i // (3 * len(fitgen.PAIRS)) + i) % 6]
+            # (all ones: the same rows with weights given and with weights=None)
+            c['weights_mode'] = ('int', 'int0', 'const', 'sparse', 'ones', 'const')[(i // (3 * len(fitgen.PAIRS)) + i) % 6]
             if c['n_mode'] == 'xlarge':
                 c['n_mode'] = 'large'
         job = dict(kind=kind, case=c, sub=rng.randrange(10 ** 9))
+        # PoissonGAM: the exposure is part of the fitting problem (fitgen cycles exposure x weights: both, exposure only,
+        # weights only, neither); a permuted / replicated row carries its exposure with it
+        if c['cls'] == 'PoissonGAM' and c.get('exposure_mode', 'none') != 'none':
+            job['exposure'] = True
         if kind == 'rescale':
             # styles of affine maps, cycled so that every run has several of each (see _pick_affine)
             job['style'] = ('std', 'offset', 'tiny', 'std', 'offset', 'huge')[(i // (3 * len(fitgen.PAIRS)) + i) % 6]
         jobs.append(job)
+    # in every run, not left to the draw: PoissonGAM fitted with a non-constant exposure AND explicit integer weights
+    # (every style, incl. all ones vs weights=None) against the replicated rows, each copy with the exposure of its
+    # source row; and the same fits under a permutation of the rows.  Sizes at which the fit is well conditioned.
+    for i in range(n_expo):
+        c = fitgen.gen_cases(rng, 3, tier)[2]           # the PoissonGAM entry of the cycle of pairs
+        assert c['cls'] == 'PoissonGAM'
+        kind = 'perm' if i % 4 == 3 else 'repl'
+        c.update(n_mode=('mid', 'large', 'mid')[i % 3], lam_mode=('default', 'mixed')[(i // 2) % 2], constraints=False,
+                 exposure_mode='pos', history='none',
+                 weights_mode=('int', 'pos')[(i // 4) % 2] if kind == 'perm' else ('int', 'ones', 'int0', 'const', 'sparse', 'ones')[(i - i // 4) % 6])
+        jobs.append(dict(kind=kind, case=c, sub=rng.randrange(10 ** 9), exposure=True, forced=True))
+    # in every run: integer-dtype training matrices and integer user edge knots (see _integerise), every model class
+    ipairs = [0, 6, 0, 2, 1, 0, 3, 5, 0, 7, 10, 0, 4]
+    for i in range(n_int):
+        c = fitgen.gen_cases(rng, len(fitgen.PAIRS), tier)[ipairs[i % len(ipairs)]]
+        c.update(n_mode=('mid', 'large')[i % 2], lam_mode=('default', 'mixed', 'default', 'zero')[(i // 3) % 4], constraints=False,
+                 history='none', y_scale=1.0)
+        jobs.append(dict(kind='rescale', case=c, sub=rng.randrange(10 ** 9), forced=True, intx=('X', 'X+ek', 'ek')[i % 3],
+                         style=('std', 'offset', 'std', 'std', 'tiny', 'offset', 'huge')[i % 7]))
     for i in range(n_linear * 2):
         cls, dist, link = LINEAR_PAIRS[0] if i % 3 else LINEAR_PAIRS[1]
         c = dict(seed=rng.randrange(10 ** 9), cls=cls, dist=dist, link=link, levels=1, expectile=None, scale=None,
@@ -72,14 +101,16 @@ def gen_jobs(rng, tier):
     return jobs
 
 
-def _build(case, pygam):
+def _build(case, pygam, exposure=False):
     c = dict(case)
     wm = c['weights_mode']
-    if wm in ('int0', 'const', 'sparse'):
+    if wm in ('int0', 'const', 'sparse', 'ones'):
         c['weights_mode'] = 'int'
     if c['n_mode'] == 'mid2':
         c['n_mode'] = 'mid'
-    b = fitgen.build(c, pygam)
+    if exposure:
+        c['feature_units'] = 'plain'        # of the opt-in ingredients of fitgen only the exposure
+    b = fitgen.build(c, pygam, opt_in=bool(exposure))
     if b['gam'].terms.hasconstraint:
         b['gam'].max_iter = 60      # constrained PIRLS converges quickly or cycles; tensor constraints cost ~0.2 s per iteration
     return b
@@ -146,8 +177,15 @@ def _eta(case, mu):
         return fitgen.np_link(case['link'], float(case['levels']), np.asarray(mu, dtype=float))
 
 
-def _fit(gam, X, y, w):
-    status, out = fitgen.fit_quiet(gam, X, y, w)
+def _eff(y, w, e):
+    """the weighted problem that counts y observed over exposures e stand for: rates y / e with weights w e"""
+    if e is None:
+        return y, w
+    return y / e, (np.asarray(e, dtype=float) if w is None else np.asarray(w, dtype=float) * e)
+
+
+def _fit(gam, X, y, w, exposure=None):
+    status, out = fitgen.fit_quiet(gam, X, y, w, **({} if exposure is None else dict(exposure=exposure)))
     if status != 'ok':
         return dict(status=status, msg=out)
     coef = np.asarray(gam.coef_, dtype=float).ravel()
@@ -277,16 +315,18 @@ def _pick_perm(rs, X, feats=None):
 
 def _job_perm(job, pygam):
     case = job['case']
-    b0, b1 = _build(case, pygam), _build(case, pygam)
-    X, y, w = b0['X'], b0['y'], b0['weights']
+    ex = bool(job.get('exposure'))
+    b0, b1 = _build(case, pygam, ex), _build(case, pygam, ex)
+    X, y, w, e = b0['X'], b0['y'], b0['weights'], b0['exposure']
     n = X.shape[0]
     perm = _pick_perm(np.random.default_rng(job['sub']), X, sorted({int(s_.feature) for _t, s_ in _leaves(b0['gam'].terms)}))
-    f0 = _fit(b0['gam'], X, y, w)
-    f1 = _fit(b1['gam'], X[perm].copy(), y[perm].copy(), None if w is None else w[perm].copy())
+    f0 = _fit(b0['gam'], X, y, w, e)
+    f1 = _fit(b1['gam'], X[perm].copy(), y[perm].copy(), None if w is None else w[perm].copy(), None if e is None else e[perm].copy())
     res = dict(st0=f0['status'], st1=f1['status'], desc=b0['desc'], msg=f0.get('msg', '') or f1.get('msg', ''))
     if f0['status'] != 'ok' or f1['status'] != 'ok':
         return res
     Xe = _eval_rows(b0)
+    y, w = _eff(y, w, e)        # from here on the oracle's own weighted formulation of the problem with exposure
     sysm = _system(b0['gam'], case, X, y, w)
     if sysm is None:
         res['st0'] = 'nonfinite-system'
@@ -353,11 +393,74 @@ def _pick_affine(rs, lo, span, style='std'):
     return a, b
 
 
+_PRIMES = (23, 29, 37, 53, 61, 97)        # more cells than any basis of the generator has: a whole number is never on an inner knot
+
+
+def _next_prime(k):
+    while any(k % p == 0 for p in range(2, int(k ** 0.5) + 1)):
+        k += 1
+    return k
+
+
+def _integerise(bs, elig, mode, rs):
+    """re-express the generated problem in whole numbers (ages in years, temperatures in degrees, calendar years): a perfectly
+    valid numeric input whose array dtype is integer.  Every spline-only feature is put on the grid L, L+1, …, L+R (relative
+    positions kept, R prime); the query points keep their relative positions and so fall BETWEEN the whole numbers; the other
+    columns become whole numbers too (by-variables in quarters x 4, other numeric columns on a 61-step grid, category codes
+    as they are), so that the training matrix can be handed over with dtype int64.
+    mode 'X'    integer-dtype X, knots derived from the data (hence whole numbers);
+         'X+ek' integer-dtype X and user edge knots given as whole numbers (Python ints, or an int64 array, either order);
+         'ek'   float X between the whole numbers, user edge knots given as whole numbers.
+    The same data and terms go into both builds; the caller then maps the second one x -> a x + b (floating point)."""
+    X, Xq = np.array(bs[0]['X'], dtype=float), np.array(bs[0]['Xq'], dtype=float)
+    knots = {}
+    for j in range(X.shape[1]):
+        col, colq = X[:, j].copy(), Xq[:, j].copy()
+        lo, hi = float(col.min()), float(col.max())
+        if j in elig:
+            R = int(_PRIMES[int(rs.integers(0, len(_PRIMES)))])
+            L = int((0, -7, 18, 1900, -40, 1)[int(rs.integers(0, 6))])
+            u, uq = (col - lo) / (hi - lo), (colq - lo) / (hi - lo)
+            X[:, j] = L + (R * u if mode == 'ek' else np.round(R * u))
+            Xq[:, j] = L + R * uq
+            d1 = int(rs.integers(1, 4))
+            knots[j] = (L - d1, L - d1 + _next_prime(R + d1 + 1))      # whole numbers beyond the data, a prime apart
+        else:
+            both = np.concatenate([col, colq])
+            if (both == np.round(both)).all():
+                continue
+            if (4 * both == np.round(4 * both)).all():
+                X[:, j], Xq[:, j] = 4 * col, 4 * colq
+            else:
+                span = (hi - lo) or 1.0
+                X[:, j] = np.round(lo) + np.round(61 * (col - lo) / span)
+                Xq[:, j] = np.round(lo) + np.round(61 * (colq - lo) / span)
+    if mode != 'ek':
+        Xi = X.astype(np.int64)
+        assert (Xi == X).all()
+        X = Xi
+    form = int(rs.integers(0, 4))
+    for b in bs:
+        for _t, s in _leaves(b['gam'].terms):
+            if s._name == 'spline_term' and int(s.feature) in elig:
+                if mode == 'X':
+                    s.edge_knots = None
+                else:
+                    k0, k1 = knots[int(s.feature)]
+                    ek = [[k0, k1], [k1, k0], np.array([k0, k1], dtype=np.int64), [np.int64(k0), np.int64(k1)]][form]
+                    s.edge_knots = ek
+                    s.edge_knots_ = ek
+        b['X'], b['Xq'] = X.copy(), Xq.copy()
+        b['gam'].terms.compile(b['X'])
+
+
 def _job_rescale(job, pygam):
     case = dict(job['case'])
+    ex = bool(job.get('exposure'))
+    intx = job.get('intx')
     b0 = b1 = None
     for attempt in range(8):
-        b0 = _build(case, pygam)
+        b0 = _build(case, pygam, ex)
         # a constant column has no units to change: its edge knots coincide and the code falls back to scale = 1
         # (the hypothesis e0 != e1 of affine_invariant); such features are left alone
         elig = [f for f in eligible_features(b0['gam'].terms) if b0['X'][:, f].max() > b0['X'][:, f].min()]
@@ -366,31 +469,34 @@ def _job_rescale(job, pygam):
         case['seed'] = case['seed'] + 7919
     if not elig:
         return dict(st0='no-eligible-feature', st1='', desc=b0['desc'], msg='')
-    b1 = _build(case, pygam)
-    X, y, w, Xq = b0['X'], b0['y'], b0['weights'], b0['Xq']
+    b1 = _build(case, pygam, ex)
     rs = np.random.default_rng(job['sub'])
+    if intx:
+        _integerise([b0, b1], elig, intx, rs)
+    X, y, w, Xq, e = b0['X'], b0['y'], b0['weights'], b0['Xq'], b0['exposure']
     nf = X.shape[1]
     a, b = np.ones(nf), np.zeros(nf)
-    chosen = [f for f in elig if rs.random() < 0.75] or [elig[0]]
+    chosen = [f for f in elig if intx or rs.random() < 0.75] or [elig[0]]
     for f in chosen:
         lo, hi = float(X[:, f].min()), float(X[:, f].max())
         a[f], b[f] = _pick_affine(rs, lo, (hi - lo) or 1.0, job.get('style', 'std'))
-    Xm, Xqm = X.copy(), Xq.copy()
+    Xm, Xqm = np.array(X, dtype=float), Xq.copy()       # the re-expressed features are floating point whatever X was
     for f in chosen:
         Xm[:, f] = a[f] * X[:, f] + b[f]
         Xqm[:, f] = a[f] * Xq[:, f] + b[f]
     # user-given edge knots follow the units
     for t, s in _leaves(b1['gam'].terms):
         if s._name == 'spline_term' and int(s.feature) in chosen and getattr(s, 'edge_knots', None) is not None:
-            ek = [float(a[s.feature] * e + b[s.feature]) for e in s.edge_knots]
+            ek = [float(a[s.feature] * float(e_) + b[s.feature]) for e_ in s.edge_knots]
             s.edge_knots = ek
             s.edge_knots_ = ek
-    f0 = _fit(b0['gam'], X, y, w)
-    f1 = _fit(b1['gam'], Xm, y, w)
+    f0 = _fit(b0['gam'], X, y, w, e)
+    f1 = _fit(b1['gam'], Xm, y, w, e)
     res = dict(st0=f0['status'], st1=f1['status'], desc=b0['desc'], msg=f0.get('msg', '') or f1.get('msg', ''), case_used=case,
-               a=[float(v) for v in a], b=[float(v) for v in b], chosen=chosen)
+               a=[float(v) for v in a], b=[float(v) for v in b], chosen=chosen, x_dtype=str(X.dtype))
     if f0['status'] != 'ok' or f1['status'] != 'ok':
         return res
+    y, w = _eff(y, w, e)        # from here on the oracle's own weighted formulation of the problem with exposure
     g0, g1 = b0['gam'], b1['gam']
     Xe, Xem = np.vstack([Xq, X[:8]]), np.vstack([Xqm, Xm[:8]])
     safe = knot_safe(g0.terms, np.vstack([X, Xq])) and knot_safe(g1.terms, np.vstack([Xm, Xqm]))
@@ -451,6 +557,8 @@ def _int_weights(rs, X, with_zeros, style='int'):
         k = max(1, n // 20)
         w[rs.choice(n, size=k, replace=False)] = float((2, 3, 4)[int(rs.integers(0, 3))])
         return w
+    if style == 'ones':
+        return np.ones(n)       # explicit unit weights: one copy of every row, i.e. the same rows with weights=None
     w = rs.integers(1, 4, size=n).astype(float)
     if with_zeros and n >= 6:
         protect = set()
@@ -470,18 +578,22 @@ def _int_weights(rs, X, with_zeros, style='int'):
 
 def _job_repl(job, pygam):
     case = job['case']
-    b0, b1 = _build(case, pygam), _build(case, pygam)
-    X, y = b0['X'], b0['y']
+    ex = bool(job.get('exposure'))
+    b0, b1 = _build(case, pygam, ex), _build(case, pygam, ex)
+    X, y, e = b0['X'], b0['y'], b0['exposure']
     n = X.shape[0]
     rs = np.random.default_rng(job['sub'])
-    w = _int_weights(rs, X, case['weights_mode'] == 'int0', style=case['weights_mode'] if case['weights_mode'] in ('const', 'sparse') else 'int')
+    w = _int_weights(rs, X, case['weights_mode'] == 'int0', style=case['weights_mode'] if case['weights_mode'] in ('const', 'sparse', 'ones') else 'int')
     idx = np.repeat(np.arange(n), w.astype(int))
-    f0 = _fit(b0['gam'], X, y, w)
-    f1 = _fit(b1['gam'], X[idx].copy(), y[idx].copy(), None)
+    # a copy of a row is the whole observation: features, count and the exposure over which the count was observed
+    f0 = _fit(b0['gam'], X, y, w, e)
+    f1 = _fit(b1['gam'], X[idx].copy(), y[idx].copy(), None, None if e is None else e[idx].copy())
     res = dict(st0=f0['status'], st1=f1['status'], desc=b0['desc'], msg=f0.get('msg', '') or f1.get('msg', ''))
     if f0['status'] != 'ok' or f1['status'] != 'ok':
         return res
     Xe = _eval_rows(b0)
+    w_int = w
+    y, w = _eff(y, w, e)        # from here on the oracle's own weighted formulation of the problem with exposure
     sysm = _system(b0['gam'], case, X, y, w)
     if sysm is None:
         res['st0'] = 'nonfinite-system'
@@ -490,17 +602,17 @@ def _job_repl(job, pygam):
     d, k, mism = _reldiff(e0, e1)
     res.update(conv=f0['conv'] and f1['conv'], cond=sysm['cond'], d_pred=d, n_cmp=k, nan_mismatch=mism, n=n, m=sysm['m'],
                d_edof=abs(f0['edof'] - f1['edof']) / (1 + abs(f0['edof'])), edof=(f0['edof'], f1['edof']),
-               n_repl=int(len(idx)), zeros=int((w == 0).sum()), nonident=bool((w != 1).any()), be0=sysm['be'],
+               n_repl=int(len(idx)), zeros=int((w_int == 0).sum()), nonident=True, be0=sysm['be'],   # all ones: weights given vs weights=None
                be1=_cross_stationarity(b0['gam'], case, X, y, w, f1['coef']), dev_finite=_dev_finite(b0['gam'], b1['gam']))
     if len(idx) * sysm['m'] <= 8000 and sysm['m'] <= 45:
         B1 = _dense(b1['gam'].terms.build_columns(X[idx].copy()))
-        ux = np.where(np.isfinite(sysm['u']), sysm['u'], 0.0)
+        ux = np.where(np.isfinite(sysm['u']), sysm['u'], 0.0) * (1.0 if e is None else e)    # working weight of ONE copy of the row
         zx = np.where(np.isfinite(sysm['z']), sysm['z'], 0.0)
-        keepu = sysm['keep'] | (w == 0)      # the mask of a zero-weight row is irrelevant: it has no copy
+        keepu = sysm['keep'] | (w_int == 0)      # the mask of a zero-weight row is irrelevant: it has no copy
         uk = np.where(keepu, ux, 0.0)
         res['op'] = 'C12 normrepl %d %d | %s | %s | %s | %s | %s' % (
             n, sysm['m'], _qs(sysm['B']), _qs(ux), _qs(zx), ' '.join('1' if k_ else '0' for k_ in keepu),
-            ' '.join(str(int(v)) for v in w))
+            ' '.join(str(int(v)) for v in w_int))
         res['N1'] = B1.T @ (uk[idx][:, None] * B1)
         res['rhs1'] = B1.T @ (uk[idx] * zx[idx])
         res['sN'] = float((np.abs(B1).T @ (np.abs(uk[idx])[:, None] * np.abs(B1))).max())
@@ -623,10 +735,7 @@ def _job_linear(job, pygam):
     return res
 
 
-def _worker(job):
-    import warnings
-    warnings.filterwarnings('ignore')
-    pygam = common.import_pygam()
+def _run_job(job, pygam):
     try:
         if job['kind'] == 'perm':
             r = _job_perm(job, pygam)
@@ -642,10 +751,39 @@ def _worker(job):
     return r
 
 
+def _worker(job):
+    import warnings
+    warnings.filterwarnings('ignore')
+    pygam = common.import_pygam()
+    r = _run_job(job, pygam)
+    # the every-run cases must end in a judged pair: when the drawn program is rejected by the generator, does not converge
+    # in max_iter or is too ill-conditioned to be judged, the next program of the same configuration is drawn (the verdict
+    # of a judged pair is never a reason to redraw)
+    for t in range(1, 6 if job.get('forced') else 1):
+        if r.get('conv') and _judge(r)[2]:
+            break
+        r = _run_job(dict(job, case=dict(job['case'], seed=job['case']['seed'] + 104729 * t)), pygam)
+    return r
+
+
 # ---------------------------------------------------------------------------------------------------------
 # judging
 # ---------------------------------------------------------------------------------------------------------
 STREAM = {'perm': 'rows.permute', 'rescale': 'units.rescale', 'repl': 'weights.replicate', 'add': 'linear.add', 'scale': 'linear.scale'}
+STREAM_INT, STREAM_EXPO = 'units.rescale.int', 'weights.replicate.exposure'
+WHAT_INT = ('every run: the generated problem re-expressed in whole numbers — training X handed over with dtype int64 (knots derived from the data) and / or user edge knots given '
+            'as whole numbers (Python ints, int64 array, either order) — vs the same model fitted on the affinely mapped floating-point X; judged at query points between the '
+            'whole numbers (and extrapolating) mapped likewise: model matrix, edge knots, predictions, edof equal')
+WHAT_EXPO = ('every run: PoissonGAM fitted with a non-constant exposure AND explicit integer weights (mixed, with zeros, all equal, mostly ones, all ones) vs the rows replicated '
+             'with their counts and exposures and weights=None: predictions (rates, link scale) and edof equal')
+
+
+def _stream_of(job):
+    if job['kind'] == 'rescale' and job.get('intx'):
+        return STREAM_INT
+    if job['kind'] == 'repl' and job.get('exposure'):
+        return STREAM_EXPO
+    return STREAM[job['kind']]
 WHAT = {
     'perm': 'real fit on permuted rows vs original: predictions (link scale) and edof equal to thr = max(1e-6, 10 eps cond)',
     'rescale': 'real fit with spline-only features mapped x -> a x + b (a 1e-12…1e12; offsets up to 1e9 x a·range, both signs; query points and user knots mapped): model matrix, edge knots, predictions, edof equal',
@@ -672,7 +810,8 @@ def _judge(r):
         tolB = 10 * (1e-9 + shift)
         if r['safe']:
             if not (r['dB'] <= tolB):
-                bad.append('model matrix of the rescaled problem differs from the original by %.3g (relative) > %.3g' % (r['dB'], tolB))
+                bad.append('model matrix of the rescaled problem (training rows and mapped query points) differs from the original by %.3g (relative) > %.3g; '
+                           'predictions at the mapped points differ by %.3g (relative, link scale)' % (r['dB'], tolB, r['d_pred']))
             if not (r['ek_bad'] <= 1e-12):
                 bad.append('compiled edge knots of the rescaled problem are not the mapped edge knots (relative error %.3g)' % r['ek_bad'])
         # predictions: the measured difference of the two model matrices acts like a data perturbation of that size
@@ -740,12 +879,14 @@ def run(ctx):
     common.import_pygam()
     for k in KINDS:
         ctx.stream(STREAM[k], WHAT[k])
+    ctx.stream(STREAM_INT, WHAT_INT)
+    ctx.stream(STREAM_EXPO, WHAT_EXPO)
     ctx.stream('model.colsaff', 'Lean model (exact): row of the rescaled problem (Term.affineKnots, mapRow, columnsAll) == original row exactly, and == real build_columns of the real rescaled fit (1e-9 + rounding of the change of units)')
     ctx.stream('model.normperm', 'Lean model (exact): normalMat / normalRhs of the permuted exported rows == original exactly, and == NumPy B1\' W B1 of the real permuted design (1e-12)')
     ctx.stream('model.normrepl', 'Lean model (exact): normalMat / normalRhs of replicated rows with unit weights == weighted original rows exactly, and == NumPy on the real replicated design (1e-12)')
     ctx.stream('model.lin', 'Lean model (exact): solutions of the exported normal equations are additive and homogeneous in y; B beta == real fitted values (thr)')
     ctx.extra['rule'] = ('jobs = fitgen case (model class / distribution x link, random term program, n relative to m, weights mode, lam mode, constraints) x transformation '
-                         '(row permutation; affine map of every spline-only feature with a over 1e-6…1e6; integer weights incl. zeros vs replication; y1 + y2; c y with c over ±1e-6…1e6); '
+                         '(row permutation; affine map of every spline-only feature with a over 1e-6…1e6, also from integer-dtype X / whole-number user knots; integer weights incl. zeros and all ones vs replication, PoissonGAM also with exposure; y1 + y2; c y with c over ±1e-6…1e6); '
                          'distinct = distinct job dicts; non-trivial = both fits converged, well enough conditioned to be judged, transformation not the identity')
     jobs = gen_jobs(ctx.subrng('jobs'), ctx.tier)
     with mp.get_context('fork').Pool(min(16, len(jobs))) as pool:
@@ -764,7 +905,7 @@ def run(ctx):
     for ri, r in enumerate(results):
         job = r['job']
         kind, c = job['kind'], job['case']
-        st = STREAM[kind]
+        st = _stream_of(job)
         sig = dict(job=job)
         ctx.count('kind', kind)
         ctx.count('pair', '%s %s/%s' % (c['cls'], c['dist'], c['link']))
@@ -799,7 +940,10 @@ def run(ctx):
             ctx.count('rescale: knot-safe', str(r['safe']))
             ctx.count('rescale: a decade', int(np.floor(np.log10(max(max(r['a']), 1.0 / min(r['a']))))))
             ctx.count('rescale: style', job.get('style', 'std'))
+            ctx.count('rescale: dtype of the training X / user edge knots', '%s / %s' % (r.get('x_dtype'), {'X': 'from the data', 'X+ek': 'whole numbers', 'ek': 'whole numbers'}.get(job.get('intx'), 'float or none')))
             ctx.count('rescale: log10 |b| / (a range)', _lbk(r['kappa']))
+        if job.get('exposure'):
+            ctx.count('PoissonGAM with exposure', '%s, weights %s' % (kind, c['weights_mode']))
         if kind == 'scale':
             ctx.count('scale: |c| decade', int(np.floor(np.log10(abs(r['c'])))))
         confirmed = False
@@ -809,8 +953,8 @@ def run(ctx):
             bad2 = _judge(r2)[0] if ('conv' in r2 and r2.get('conv')) else []
             if bad2:
                 confirmed = True
-                ctx.fail(st, dict(kind=kind, cls=c['cls'], pair='%s/%s' % (c['dist'], c['link'])), dict(job=job, n=r['n'], m=r['m'], cond=r['cond'], desc=r.get('desc')),
-                         observed=bad2, expected=WHAT[kind], oracle='metamorphic relation on the real code (two fits, tol=1e-10), tolerance 10 x max(1e-6, 10 eps cond)')
+                ctx.fail(st, dict(kind=kind, cls=c['cls'], pair='%s/%s' % (c['dist'], c['link'])), dict(job=job, n=r['n'], m=r['m'], cond=r['cond'], desc=r.get('desc'), **{k_: r2[k_] for k_ in ('a', 'b', 'chosen', 'x_dtype') if k_ in r2}),
+                         observed=bad2, expected=(WHAT_INT if st == STREAM_INT else WHAT_EXPO if st == STREAM_EXPO else WHAT[kind]), oracle='metamorphic relation on the real code (two fits, tol=1e-10), tolerance 10 x max(1e-6, 10 eps cond)')
             else:
                 ctx.count('not reproduced on re-execution', kind)
         # ---- model side
